@@ -36,10 +36,13 @@ ASSUMPTIONS = ['python == of two collections.OrderedDicts is order-sensitive, eq
                'np.vectorize(eq) visits every cell of two equally shaped arrays; list(pd.Index) yields the labels as the python / pandas scalars the wire format spells (a NaN among datetime labels is NaT, which the model treats as the NaN label it is spelled as)',
                'object identity (the `x is y` shortcut) is not modelled: every call decodes fresh objects; the shared np.nan object is generated (NF:nan)',
                'numbers are spelled exactly (ints of any size, floats that are multiples of 1/4 - 2**53 and its neighbours included); np.float32 scalars and arrays hold such values exactly',
-               'dict keys are distinct strings; pandas extension arrays and their pd.NA, timedelta64 units finer than ns (ps, fs, as: after C14-F9 such a duration equals only timedelta64s numpy calls equal, never a number - probed, not generated; datetime64 in ps / fs / as IS generated since C14-F10, but not as an axis label), out-of-bounds datetime64 / timedelta64, tz-aware timestamps, complex / Decimal NaN, None labels and Series names are outside the universe']
+               'dict keys are distinct strings; pandas extension arrays and their pd.NA, timedelta64 units finer than ns (ps, fs, as: after C14-F9 such a duration equals only timedelta64s numpy calls equal, never a number - probed, not generated; datetime64 in ps / fs / as IS generated since C14-F10, but not as an axis label), out-of-bounds datetime64 / timedelta64, tz-aware timestamps, complex / Decimal NaN, None labels and Series names are outside the universe',
+               'np.longdouble / np.clongdouble (imaginary part 0) are the exact numbers they hold (true of the code since C14-F11); only real multiples of 1/4 are spelled (LF: / LC:), a longdouble that is neither whole nor a float64 is probed, not generated; 2**64 as the first integer gap assumes the x86 80-bit type']
 
 D = datetime.datetime
 BIG = 2 ** 53
+HUGE = 2 ** 64         # where np.longdouble (x86: 64-bit mantissa) stops holding every integer
+LD, CLD = np.longdouble, np.clongdouble
 d64, t64, TD = np.datetime64, np.timedelta64, datetime.timedelta
 NS2020 = 1577836800000000000        # 2020-01-01 in ns since 1970: what an M8[ns] cell is as an int
 DAY_NS = 86400 * 10 ** 9
@@ -74,6 +77,15 @@ def w(x):
         return W('PT:%d' % proto.dt2us(x.to_pydatetime()))
     if isinstance(x, F32):
         return W('HF:nan' if x.v != x.v else 'HF:%d' % int(x.v * 4))
+    if isinstance(x, (LD, CLD)):
+        # np.longdouble / np.clongdouble (imaginary part 0): the value times 4 as an exact integer - beyond 2**53 too: these are the
+        # numpy scalars whose .item() is the numpy scalar again (review w5 F1, C14-F11)
+        r = x.real
+        if r != r:
+            return W('LF:nan' if isinstance(x, LD) else 'LC:nan')
+        if x.imag != 0 or r * 4 != np.floor(r * 4):
+            raise proto.Unencodable('longdouble %r is not a real multiple of 1/4' % (x,))
+        return W('%s:%d' % ('LF' if isinstance(x, LD) else 'LC', int(r * 4)))
     if isinstance(x, list):
         return W('(L' + ''.join(' ' + w(v) for v in x) + ')')
     if isinstance(x, tuple):
@@ -116,7 +128,7 @@ def DF(idx, cols, *cells):
 
 # ---------------------------------------------------------------- decoding into fresh python objects
 
-DTYPES = {'i': np.int64, 'f': np.float64, 'e': np.float32, 'b': bool, 'U': str,
+DTYPES = {'i': np.int64, 'f': np.float64, 'e': np.float32, 'g': np.longdouble, 'b': bool, 'U': str,
           'Mns': 'M8[ns]', 'Mus': 'M8[us]', 'Ms': 'M8[s]', 'MD': 'M8[D]', 'Mps': 'M8[ps]', 'Mfs': 'M8[fs]', 'mns': 'm8[ns]', 'mus': 'm8[us]', 'mD': 'm8[D]', 'mY': 'm8[Y]', 'mM': 'm8[M]',
           'mps': 'm8[ps]', 'mfs': 'm8[fs]'}
 
@@ -161,6 +173,9 @@ def dec_cell(a):
         return pd.Timestamp(proto.us2dt(int(a[3:])))
     if a.startswith('HF:'):
         return np.float32('nan') if a == 'HF:nan' else np.float32(int(a[3:]) / 4)
+    if a[:3] in ('LF:', 'LC:'):      # q / 4 exactly: longdouble division of an exactly converted int by a power of two
+        cls = LD if a[1] == 'F' else CLD
+        return cls('nan') if a.endswith(':nan') else cls(LD(int(a[3:])) / 4)
     if a.startswith('NaT:'):
         return {'P': pd.NaT, 'M': np.datetime64('NaT'), 'm': np.timedelta64('NaT')}[a[4:]]
     if a[:5] in ('M8ps:', 'M8fs:', 'M8as:'):
@@ -296,7 +311,7 @@ def unnamed(sx):
 def plain(sx):
     """NaN-free value built from python scalars, lists, tuples and plain dicts only"""
     if isinstance(sx, str):
-        return not sx.endswith(':nan') and sx[:3] not in ('NI:', 'NF:', 'NB:', 'HF:', 'NaT') and sx[:2] not in ('M8', 'm8', 'CM')    # numpy scalars broadcast under ==; NaT != NaT
+        return not sx.endswith(':nan') and sx[:3] not in ('NI:', 'NF:', 'NB:', 'HF:', 'LF:', 'LC:', 'NaT') and sx[:2] not in ('M8', 'm8', 'CM')    # numpy scalars broadcast under ==; NaT != NaT
     if sx[0] in ('L', 'T'):
         return all(plain(y) for y in sx[1:])
     if sx[0] == 'D':
@@ -315,6 +330,11 @@ def universe():
          # numpy scalars of another width; numbers where float64 stops being exact (numpy == rounds the int, python == does not)
          F32(1.0), F32(2.5), F32(nan), BIG, BIG + 1, float(BIG), np.int64(BIG), np.int64(BIG + 1), np.float64(BIG), [BIG + 1], [np.float64(BIG)],
          A('i', (1,), BIG + 1), A('f', (1,), float(BIG)), A('e', (2,), 1.0, nan), A('e', (2,), 1.0, 2.5), A('f', (2,), 1.0, 2.5),
+         # review w5 F1 (C14-F11): np.longdouble / np.clongdouble - .item() is the numpy scalar itself, and numpy's == rounds a python int to the
+         # 64-bit mantissa: 2**64 == longdouble(2**64) == 2**64 + 1.  Next to the ints and floats around 2**64 and 2**53, a NaN, arrays of that dtype
+         LD(1), LD(2.5), LD('nan'), LD(HUGE), LD(HUGE) + LD(2048), LD(BIG), LD(BIG + 1), CLD(HUGE), CLD(1), HUGE, HUGE + 1, HUGE + 2048, float(HUGE),
+         [LD(HUGE)], [HUGE + 1], [LD('nan')], {'a': LD(HUGE)}, {'a': HUGE + 1}, A('g', (1,), HUGE), A('g', (2,), 1.0, nan), A('g', (1,), BIG + 1), A('g', (1,), HUGE + 2048),
+         A('o', (1,), HUGE), A('o', (1,), HUGE + 1), A('o', (1,), LD(HUGE)), A('f', (1,), float(HUGE)), S([0], LD(HUGE)), S([0], HUGE + 1),
          # distinct floats that numpy's tolerance comparisons (isclose / allclose, rtol 1e-5) call equal
          A('f', (1,), 100000.0), A('f', (1,), 100000.25), A('f', (1,), 100000.5), [100000.0], [100000.25], S([0], 100000.0), S([0], 100000.25),
          S([BIG], 1.0), S([float(BIG)], 1.0), S([BIG + 1], 1.0),
@@ -394,6 +414,7 @@ def universe():
 SCALARS = [None, True, False, 0, 1, -1, 2, 3, 1.0, 2.0, 2.5, -0.25, '', 'a', 'b', 'ab', D(2020, 1, 1), D(2020, 1, 2), datetime.date(2020, 1, 1),
            pd.Timestamp('2020-01-02'), np.int64(1), np.float64(2.5), np.float64(1.0), np.bool_(False), float('inf'),
            BIG, BIG + 1, float(BIG), np.int64(BIG + 1), np.float64(BIG), F32(2.5), F32(1.0),
+           LD(1), LD(2.5), LD(HUGE), LD(HUGE), CLD(HUGE), LD(BIG + 1), HUGE, HUGE + 1, HUGE + 1, float(HUGE),
            d64('2020-01-01'), d64('2020-01-01', 'ns'), d64('2020-01-02', 'us'), d64('2020-01-02T00', 'h'), t64(1, 'D'), t64(24, 'h'), TD(days=1), TD(days=2), pd.Timedelta(days=2), 24,
            t64(2, 'Y'), t64(24, 'M'), t64(2, 'M'), t64(1, 'W'), t64(7, 'D'), 12,
            D(1970, 1, 1), pd.Timestamp('1970-01-01'), d64(0, 'ps'), d64(1, 'ps'), d64(1000, 'fs'), d64(0, 'ns'), d64(0, 'as'),
@@ -411,7 +432,7 @@ LABEL_ALTS = [7, 'q', 2.5, '2020-01-01', D(2020, 1, 1), '2020-01-01 00:00', '1/1
 
 def rand_scalar(rng, nan_rate=0.15):
     if rng.random() < nan_rate:
-        return rng.choice([float('nan'), np.nan, np.float64('nan'), F32(float('nan')), float('nan'), np.nan, d64('NaT'), t64('NaT'), pd.NaT])
+        return rng.choice([float('nan'), np.nan, np.float64('nan'), F32(float('nan')), LD('nan'), float('nan'), np.nan, d64('NaT'), t64('NaT'), pd.NaT])
     return rng.choice(SCALARS)
 
 
@@ -423,6 +444,8 @@ def rand_num(rng, dtype):
         return rng.choice([0.0, 1.0, 2.0, 2.5, -0.25, float('nan'), float('nan'), float(BIG), 100000.0, 100000.25, 100000.5])
     if dtype == 'e':
         return rng.choice([0.0, 1.0, 2.0, 2.5, -0.25, float('nan'), 100000.0, 100000.25])
+    if dtype == 'g':      # longdouble cells, spelled as the python numbers they hold exactly (2**64 + 2048 and 2**53 + 1 are no float64)
+        return rng.choice([0.0, 1.0, 2.5, float('nan'), HUGE, HUGE, HUGE + 2048, BIG + 1, float(BIG)])
     if dtype == 'b':
         return rng.choice([True, False])
     if dtype in ('Mps', 'Mfs'):
@@ -471,7 +494,7 @@ def rand_val(rng, depth):
         return w(items) if c == 0 else DC(c, **items)
     if r < 0.85:
         shape = rand_shape(rng)
-        dtype = rng.choice(['i', 'f', 'f', 'e', 'b', 'U', 'o', 'Mns', 'Mus', 'MD', 'Mps', 'Mfs', 'mns', 'mD', 'mY', 'mM', 'mps', 'mfs'])
+        dtype = rng.choice(['i', 'f', 'f', 'e', 'g', 'b', 'U', 'o', 'Mns', 'Mus', 'MD', 'Mps', 'Mfs', 'mns', 'mD', 'mY', 'mM', 'mps', 'mfs'])
         if dtype == 'o':
             return A('o', shape, *[rand_val(rng, depth - 1) for _ in range(prod(shape))])
         return A(dtype, shape, *[rand_num(rng, dtype) for _ in range(prod(shape))])
@@ -578,6 +601,9 @@ def mutate(rng, sx):
             return ['A', dtype, rng.choice(alts)] + cells
         if r < 0.45 and len(shape) == 1:
             return ['L'] + cells
+        if r < 0.6 and dtype == 'g':      # the same numbers as python objects (exact), with one int moved by 1 (no longdouble holds 2**64 + 1)
+            cells = [('I:%d' % (int(c[2:]) + 1) if c.startswith('I:') and int(c[2:]) >= HUGE and rng.random() < 0.5 else c) for c in cells]
+            return ['A', 'o', shape] + cells
         if r < 0.55 and dtype == 'i':
             return ['A', 'f', shape] + [proto.enc(float(int(c[2:]))) for c in cells]
         if r < 0.6 and dtype in ('Mps', 'Mfs'):
@@ -807,7 +833,7 @@ def run_line(state, sx):
 def _nan_spelling(x):
     """a NaN is a NaN whichever object holds it: python float, the shared np.nan, an np.float64 scalar; NaT likewise"""
     if isinstance(x, str):
-        return 'F:nan' if x in ('NF:nan', 'XF:nan', 'HF:nan') else 'NaT:P' if x.startswith('NaT:') else x
+        return 'F:nan' if x in ('NF:nan', 'XF:nan', 'HF:nan', 'LF:nan') else 'NaT:P' if x.startswith('NaT:') else x
     return [_nan_spelling(y) for y in x]
 
 
